@@ -47,8 +47,8 @@ int KillMemoryGrowth<Base>::init(
         return v;
       });
 
-  this->argParser_.addArgumentCustom(
-      "min_growth_ratio", min_growth_ratio_, PluginArgParser::parseUnsignedInt);
+  // min_growth_ratio_ is a float (default 1.25): do not read it as an int
+  this->argParser_.addArgument("min_growth_ratio", min_growth_ratio_);
 
   return Base::init(args, context);
 }
